@@ -81,13 +81,21 @@ func c17Programs(tier string) []*Spec {
 		// bars: 0 = P, 1 = Z (independent, below P), 2 = S after P, 3 = T after S / S2 after P
 		base := func(name string) *Spec {
 			sp := &Spec{Name: "c17-" + name, Refresh: rf, Q: -1}
-			sp.Bars = []BarSpec{{Total: 2}, {Total: 2}, {Total: 2, After: 1}}
+			// every bar carries a width-synchronised decorator: a bar taking another's place must also take part in
+			// the column from its first frame on (and the bar that left must not be waited for)
+			sp.Bars = []BarSpec{{Total: 2, Pre: []DecorSpec{syncD(2, 4)}}, {Total: 2, Pre: []DecorSpec{syncD(3)}}, {Total: 2, After: 1, Pre: []DecorSpec{syncD(5, 1)}}}
 			return sp
 		}
 		// well-formed: successor queued before the predecessor can finish
 		sp := base("wf-one")
 		sp.Main = []Op{{K: "add", B: 0}, {K: "add", B: 1}, {K: "add", B: 2}}
 		sp.Clients = [][]Op{fin(0, 2), fin(1, 2), fin(2, 2)}
+		out = append(out, sp)
+		// the independent bar was added before the predecessor, so it is pushed back after the successor in the flush
+		// that swaps them
+		sp = base("wf-z-first")
+		sp.Main = []Op{{K: "add", B: 1}, {K: "add", B: 0}, {K: "add", B: 2}}
+		sp.Clients = [][]Op{fin(0, 2), fin(2, 2), append([]Op{{K: "barwait", B: 2}}, fin(1, 2)...)}
 		out = append(out, sp)
 		// the predecessor's priority changes after the successor was queued: the successor takes the place the
 		// predecessor holds when it leaves
@@ -102,7 +110,7 @@ func c17Programs(tier string) []*Spec {
 		out = append(out, sp)
 		// chain P <- S <- T
 		sp = base("wf-chain")
-		sp.Bars = append(sp.Bars, BarSpec{Total: 1, After: 3})
+		sp.Bars = append(sp.Bars, BarSpec{Total: 1, After: 3, Pre: []DecorSpec{syncD(2)}})
 		sp.Main = []Op{{K: "add", B: 0}, {K: "add", B: 1}, {K: "add", B: 2}, {K: "add", B: 3}}
 		sp.Clients = [][]Op{fin(0, 2), fin(1, 2), fin(2, 2), fin(3, 1)}
 		out = append(out, sp)
